@@ -193,11 +193,41 @@ def letter_weights(prog):
             continue
         Wd[did][idx] = what[1] if what[0] == "val" else Wd[what[1]][what[2]]
     if sorted(t["kind"] for t in tabs.values()) != ["nucleotide", "protein"]:
-        raise AnalysisBroken("R13b slot: models classified as %s" % sorted(t["kind"] for t in tabs.values()))
+        # the letter sets do not tell the models apart (e.g. a nucleotide set extended by ambiguity codes): the model whose
+        # total, when it is the larger one, makes the decision ALN_BIOTYPE_DNA is the nucleotide model
+        byuse = _classify_by_decision(F, tabs)
+        if byuse is None:
+            raise AnalysisBroken("R13b slot: models classified as %s" % sorted(t["kind"] for t in tabs.values()))
+        for d, k in byuse.items():
+            tabs[d]["kind"] = k
     return {tabs[d]["kind"]: w for d, w in Wd.items()}, lits, tabs
 
 
-def r13b(ck, prog):
+def _classify_by_decision(F, tabs):
+    acc = {}
+    for a in F.body.find("CompoundAssignOperator"):
+        if a.d["op"] != "+=":
+            continue
+        tv = [r for r in a.kids[1].find("DeclRefExpr") if r.d["did"] in tabs]
+        if len(tv) == 1 and a.kids[0].strip().k == "DeclRefExpr":
+            acc[a.kids[0].strip().d["did"]] = tv[0].d["did"]
+    out = {}
+    for a, lhs, rhs in stores_to_field(F.body, "msa", "biotype"):
+        m = macro_of_const(rhs.strip(casts=True))
+        want = {"ALN_BIOTYPE_DNA": "nucleotide", "ALN_BIOTYPE_PROTEIN": "protein"}.get(m)
+        if want is None:
+            continue
+        for cond, pol in guards(a):
+            c0 = cond.strip()
+            if c0.k == "BinaryOperator" and c0.d["op"] in (">", "<", ">=", "<="):
+                l, r = c0.kids[0].strip(casts=True), c0.kids[1].strip(casts=True)
+                if l.k == "DeclRefExpr" and r.k == "DeclRefExpr" and l.d["did"] in acc and r.d["did"] in acc:
+                    bigger = l if (c0.d["op"] in (">", ">=")) == pol else r
+                    out[acc[bigger.d["did"]]] = want
+    return out if sorted(out.values()) == ["nucleotide", "protein"] and set(out) == set(tabs) else None
+
+
+def r13b(ck, prog, premise=True):
     from ..affine import loop_range
     F = prog.fn("detect_alphabet")
     lits, tabs = models(prog, F)
@@ -205,11 +235,10 @@ def r13b(ck, prog):
     if len(tabs) != 2:
         raise AnalysisBroken("R13b slot: the two letter models of detect_alphabet were not recognised (%d)" % len(tabs))
     kind = {}
+    _W, _l, _t = letter_weights(prog)
     for did, t in tabs.items():
         name, text, arr, decl = lits[t["lit"]]
-        letters = set(text.upper())
-        prot_only = letters - set(NUC)
-        kind[did] = "protein" if len(prot_only) >= 10 else "nucleotide"
+        kind[did] = _t[did]["kind"]
         t["kind"] = kind[did]
         where = site(prog, decl, name)
         ck.inst("R13b", where, "%s model: literal %r (%d letters) in char[%d]; member weight %.4f, default %.4f" % (
@@ -295,15 +324,25 @@ def r13b(ck, prog):
         ck.violation("R13b", "R13b/detect_alphabet/nucleotide-margin", site(prog, F),
                      "letter(s) %s do not weigh more under the nucleotide model: an all-nucleotide input can be classified as protein" % "".join(bad),
                      prog.config)
-    # informational: the protein premise in the most unfavourable composition over protein letters
-    prot_letters = [c for c in lits[[t for t in tabs.values() if t["kind"] == "protein"][0]["lit"]][1]]
-    po = [c for c in prot_letters if c.upper() not in NUC]
-    shared = [c for c in prot_letters if c.upper() in NUC]
-    if po and shared:
-        m_po = min(W["protein"][ord(c)] - W["nucleotide"][ord(c)] for c in po)
-        m_sh = max(W["nucleotide"][ord(c)] - W["protein"][ord(c)] for c in shared)
-        ck.info("R13b", "protein premise (not armed): a quarter protein-only letters gives %.2f per residue against at most %.2f from "
-                        "shared letters" % (0.25 * m_po, 0.75 * m_sh))
+    # second premise of the statement: at least a quarter protein-only letters => protein.  The totals are linear in the
+    # histogram, so the worst case for a protein-only letter c is a quarter c and three quarters of the amino-acid letter
+    # that is also a nucleotide letter and pulls hardest towards nucleotide.  Decided for every letter of the protein
+    # alphabet the repository documents (20 amino acids + B, Z, X), both cases.
+    prot_alphabet = "ACDEFGHIKLMNPQRSTVWYBZX"
+    shared = [c for c in prot_alphabet + prot_alphabet.lower() if c.upper() in NUC]
+    m_sh = max(W["nucleotide"][ord(c)] - W["protein"][ord(c)] for c in shared)
+    for c in prot_alphabet:
+        if c in NUC or not premise:
+            continue
+        m_po = min(W["protein"][ord(x)] - W["nucleotide"][ord(x)] for x in (c, c.lower()))
+        okp = 0.25 * m_po > 0.75 * m_sh
+        ck.inst("R13b", site(prog, F, "P2 %s" % c), "a quarter '%s' gives %.2f per residue towards protein against at most %.2f towards "
+                                                    "nucleotide from the other three quarters: %s" % (c, 0.25 * m_po, 0.75 * m_sh, "protein" if okp else "NOT protein"), prog.config)
+        if not okp:
+            ck.violation("R13b", "R13b/detect_alphabet/protein-premise-%s" % c, site(prog, F, "P2 %s" % c),
+                         "input in which a quarter (even a third) of the residues are '%s' - a letter that occurs only in proteins - and the "
+                         "rest are amino-acid letters that are also nucleotide letters (A, C, G, T, N) is classified as nucleotide: '%s' weighs "
+                         "%.2f towards protein, each of the others up to %.2f towards nucleotide" % (c, c, m_po, m_sh), prog.config)
     # decision polarity
     n_dec = 0
     for a, lhs, rhs in stores_to_field(F.body, "msa", "biotype"):
